@@ -47,6 +47,10 @@ CHECKS = {
          'the other group types and the name-alignment histories are walked exhaustively over finite domains (enumerative mode, labelled as such).',
          'Trusted: CrossHair models of int/range/list; default label formats from the API signatures. Outside: >4 dimensions, m>9, histories >3.',
          'DESIGN.md section 3 C11'),
+ 'C20': ('CrossHair/z3-accounted exhaustive walk of fake-solver behaviours through the real bridge code (process boundary stubbed); two harnesses keep model bits, verdict and layout symbolic through the output parser',
+         'Bounded exhaustive verification of the bridge for 8 small formulas x all supported solver names / sameas values / installed sets / verdicts / models / answer layouts: every combination is visited (Confirmed over all paths) and yields the documented result or error, with no temporary file left.',
+         'Trusted: the stubs of Popen/tempfile/os/open (a sound fake solver), CrossHair exhaustiveness accounting. Outside: real solvers, >3 variables.',
+         'DESIGN.md section 3 C20'),
 }
 NA = {}
 
